@@ -23,7 +23,12 @@ fn main() {
     } else {
         Box::new(std::io::BufWriter::new(std::fs::File::create(&out_path).unwrap()))
     };
-    let mut stats = verif_harness::run_campaign(seed, count, &prof, &mut out);
+    let replay = get("--replay", "");
+    let mut stats = if replay.is_empty() {
+        verif_harness::run_campaign(seed, count, &prof, &mut out)
+    } else {
+        verif_harness::run_replay(&std::fs::read_to_string(&replay).unwrap(), &mut out)
+    };
     out.flush().unwrap();
     stats.panics = PANICS.load(std::sync::atomic::Ordering::SeqCst);
     if !stats_path.is_empty() {
